@@ -239,7 +239,7 @@ Proof.
   cbn [bind] in Hset.
   destruct (negb (l_indep l1) && negb (l_indep l2)) eqn:Edep; [|discriminate].
   rewrite Hne in Hset. cbn [andb] in Hset.
-  destruct (ltb RNum (one RNum) (nabs RNum r)); [discriminate|].
+  destruct (negb (leb RNum (nabs RNum r) (one RNum))); [discriminate|].
   rewrite assoc_set_other in Hset by exact Hne'. rewrite E2 in Hset. cbn [bind] in Hset.
   injection Hset as <-.
   apply andb_prop in Edep. destruct Edep as [D1 D2].
